@@ -69,6 +69,7 @@ let parse_op (outs : pval array) (n : int) (s : string) : op =
   let arg tok = if String.length tok >= 2 && tok.[0] = 'r' && tok.[1] >= '0' && tok.[1] <= '9' then res tok else PScalar (scalar_of_tok tok) in
   match words s with
   | [ "new"; m ] -> ONew (nat_of_string m)
+  | [ "nil"; m ] | [ "zero"; m ] -> ONil (nat_of_string m)
   | [ "has"; r; f ] -> OHas (res r, nat_of_string f)
   | [ "get"; r; f ] -> OGet (res r, nat_of_string f)
   | [ "set"; r; f; a ] -> OSet (res r, nat_of_string f, arg a)
